@@ -205,8 +205,10 @@ class StructuredGrid(Grid):
             if i in self._stepDims[0]:
                 unitSteps.append(compressedSteps.pop(0))
             else:
-                # Add dummy value which will never get used (it gets reduced away)
-                unitSteps.append(0)
+                # Add dummy value which will never get used (it gets reduced away). It must have
+                # the shape of the real rows, or the constructor cannot build an array from it.
+                stepRows = [row for row in self._unitSteps if np.ndim(row)]
+                unitSteps.append((0,) * len(stepRows[0]) if stepRows else 0)
         unitSteps = _tuplify(unitSteps)
 
         return GridParameters(
